@@ -20,6 +20,8 @@ type P struct {
 	Src    string
 	DKeys  []string
 	Body   []byte
+	Prefix string // list routes: ?prefix=
+	Delim  string // list routes: ?delimiter=
 }
 
 // R: a request under construction (before signing).
@@ -98,10 +100,12 @@ func Build(route string, p P) (*R, error) {
 	case "ListObjectsV2":
 		r.Method, r.RawPath = "GET", bp
 		r.Query.Set("list-type", "2")
+		listArgs(r, p)
 	case "GetObject":
 		r.Method, r.RawPath = "GET", op
 	case "ListObjectsV1":
 		r.Method, r.RawPath = "GET", bp
+		listArgs(r, p)
 	case "PostPolicy":
 		r.Method, r.RawPath = "POST", bp
 	case "DeleteMultipleObjects":
@@ -120,6 +124,15 @@ func Build(route string, p P) (*R, error) {
 		return nil, fmt.Errorf("unknown route %q", route)
 	}
 	return r, nil
+}
+
+func listArgs(r *R, p P) {
+	if p.Prefix != "" {
+		r.Query.Set("prefix", p.Prefix)
+	}
+	if p.Delim != "" {
+		r.Query.Set("delimiter", p.Delim)
+	}
 }
 
 func xmlEsc(s string) string {
